@@ -106,6 +106,9 @@ impl OperationControl for Repeat {
                 iterators.push(Box::new(std::iter::once(position)));
                 positions.push(p);
             }
+            // the entry for zero occurrences takes a slot of the stack without
+            // being an iteration
+            let stack_bound = bound.saturating_add(iterators.len());
             for _i in 0..bound {
                 let mut it = self.operation.matches_iter(matcher, p);
                 if let Some(next) = it.next() {
@@ -126,7 +129,7 @@ impl OperationControl for Repeat {
                     self.operation.as_ref(),
                     iterators,
                     positions,
-                    bound,
+                    stack_bound,
                     self.min,
                 ),
             )))
